@@ -134,12 +134,14 @@ func discharge(obls []*Obligation, dir string, timeoutS int, workers int) {
 				to = 4
 			}
 			r := runSolvers(dir, i, ob.Query, to, false, "")
+			splitTried := false
 			if r.verdict == "unknown" && !knownFailing[ob.Name] && !ob.Cover && ob.Goal != "" {
 				if rs, ok := solveSplit(dir, i, ob, timeoutS); ok {
 					r = rs
+					splitTried = true
 				}
 			}
-			if r.verdict == "unknown" && !knownFailing[ob.Name] {
+			if r.verdict == "unknown" && !knownFailing[ob.Name] && !splitTried {
 				// escalate: other random seeds (quantifier instantiation is
 				// order-sensitive), then a longer limit
 				for _, sd := range []int{solverSeed + 7, solverSeed + 13, solverSeed + 101} {
@@ -220,7 +222,10 @@ func solveSplit(dir string, id int, ob *Obligation, timeoutS int) (solveResult, 
 			return r, true
 		default:
 			res.verdict = "unknown"
-			res.out = fmt.Sprintf("goal part %d/%d undecided: %s", k+1, len(parts), r.out)
+			res.out = fmt.Sprintf("goal part %d/%d undecided: %s :: %s", k+1, len(parts), firstLines(p, 1), r.out)
+			if len(res.out) > 3000 {
+				res.out = res.out[:3000]
+			}
 			res.dur = time.Since(start).Seconds()
 			return res, true
 		}
